@@ -63,7 +63,7 @@ DIRECT_OPS = ['map', 'starmap', 'filter', 'accumulate', 'slice', 'partition', 'p
 PROFILES = {
     # property -> (node pool, weights of modes, options)
     'C01': dict(pool=SYNC_OPS, modes=['loopless', 'loopless', 'async', 'threaded'], md=0.3, sinks=['sync'], feedback=True),
-    'C10': dict(pool=SYNC_OPS + ASYNC_LOSSLESS + LOSSY, modes=['loopless', 'async', 'async'], md=0.85,
+    'C10': dict(pool=SYNC_OPS + ASYNC_LOSSLESS + LOSSY, modes=['loopless', 'async', 'async', 'threaded'], md=0.85,
                 sinks=['sync', 'native', 'tornado', 'future']),
     'C02': dict(pool=ASYNC_LOSSLESS + ['map', 'filter', 'zip', 'union', 'accumulate', 'sliding_window', 'partition', 'flatten',
                                         'zip_latest', 'combine_latest', 'collect', 'pluck', 'starmap', 'slice', 'unique'],
@@ -75,15 +75,15 @@ PROFILES = {
                 need=['buffer', 'map_async', 'zip'], modes=['async', 'async', 'threaded'], md=0.2, await_all=True, stalls=True,
                 sinks=['native', 'tornado', 'future', 'sync']),
     'C04': dict(pool=SYNC_OPS + ASYNC_LOSSLESS + LOSSY, need=ASYNC_LOSSLESS + LOSSY + ['sink_async'],
-                modes=['async'], md=1.0, refs=True, inject_failures=True, stalls=True, sinks=['native', 'tornado', 'future', 'sync']),
-    'C05': dict(pool=SYNC_OPS + ASYNC_LOSSLESS + LOSSY, modes=['loopless', 'async', 'async'], md=1.0, refs=True, stalls=True,
+                modes=['async', 'async', 'async', 'threaded'], md=1.0, refs=True, inject_failures=True, stalls=True, sinks=['native', 'tornado', 'future', 'sync']),
+    'C05': dict(pool=SYNC_OPS + ASYNC_LOSSLESS + LOSSY, modes=['loopless', 'async', 'async', 'threaded'], md=1.0, refs=True, stalls=True,
                 sinks=['sync', 'native', 'tornado', 'future']),
     'C08': dict(pool=['timed_window', 'partition_t', 'timed_window_unique', 'map', 'filter', 'buffer', 'flatten'],
-                need=['timed_window', 'partition_t', 'timed_window_unique'], modes=['async'], md=0.3,
+                need=['timed_window', 'partition_t', 'timed_window_unique'], modes=['async', 'async', 'threaded'], md=0.3,
                 sinks=['native', 'tornado', 'future', 'sync'], bursts=True),
     'C13': dict(pool=['rate_limit', 'delay', 'map', 'filter', 'union', 'buffer'], need=['rate_limit', 'delay'], stalls=True,
-                modes=['async'], md=0.2, sinks=['sync', 'native', 'tornado', 'future'], bursts=True),
-    'C14': dict(pool=['latest', 'map', 'filter', 'union'], need=['latest'], modes=['async'], md=0.4, stalls=True,
+                modes=['async', 'async', 'threaded'], md=0.2, sinks=['sync', 'native', 'tornado', 'future'], bursts=True),
+    'C14': dict(pool=['latest', 'map', 'filter', 'union'], need=['latest'], modes=['async', 'async', 'threaded'], md=0.4, stalls=True,
                 sinks=['native', 'tornado', 'future', 'sync'], bursts=True),
     'C16': dict(pool=DIRECT_OPS + ['rate_limit'], modes=['loopless', 'async', 'async', 'threaded'], md=1.0, refs=True,
                 sinks=['sync', 'native', 'tornado', 'future']),
